@@ -22,6 +22,11 @@ def run(ctx):
                                    (b'[1][2]{"a":1}{"b":2}""""[]{}', [[('int', 1)], [('int', 2)], {'a': ('int', 1)}, {'b': ('int', 2)}, '', '', [], {}]),
                                    (b'1E2 1e2 1E+2 1e-2 -0 -0.0 0e0', [('flt', '1E2'), ('flt', '1e2'), ('flt', '1E+2'), ('flt', '1e-2'), ('int', 0), ('flt', '-0.0'), ('flt', '0e0')])]):
         cases.append(mkcase('T%d' % k, lib.new_cfg(), b)); expect['T%d' % k] = vals
+    # long runs of empty collections (also nested) before ordinary values: nothing that is counted per value may leak
+    for k, unit in enumerate([(b'[]', []), (b'{}', {}), (b'[[],{}]', [[], {}]), (b'{"a":[],"b":{}}', {'a': [], 'b': {}})]):
+        reps = 1100 if ctx['tier'] == 'quick' else 3000
+        b = (unit[0] + b'\n') * reps + b'[1,[2]] {"a":{"b":[3]}} [] 7'
+        cases.append(mkcase('ME%d' % k, lib.new_cfg(), b)); expect['ME%d' % k] = [unit[1]] * reps + [[('int', 1), [('int', 2)]], {'a': {'b': [('int', 3)]}}, [], ('int', 7)]
     impl, model, mism = common.correspond(cases)
     violations = []; checked = 0; total_vals = 0
     for c in cases:
